@@ -61,7 +61,11 @@ impl FromStr for UserBoundsList {
         if s.trim().is_empty() {
             bail!("UserBoundsList must contain at least one UserBounds");
         }
-        Ok(parse_bounds_list(s)?.into())
+        let list = parse_bounds_list(s)?;
+        if !list.iter().any(|bof| matches!(bof, BoundOrFiller::Bound(_))) {
+            bail!("UserBoundsList must contain at least one UserBounds");
+        }
+        Ok(list.into())
     }
 }
 
